@@ -130,15 +130,9 @@ vertices_edges_to_ugraph(Vertices, Edges, Graph) :-
 %    NG = [0-[], 1-[3,5], 2-[], 9-[]]
 % ```
 
-% replace with real msort/2 when available
-msort_(List, Sorted) :-
-    pairs_keys(Pairs, List),
-    keysort(Pairs, SortedPairs),
-    pairs_keys(SortedPairs, Sorted).
-
 add_vertices(Graph, Vertices, NewGraph) :-
-    % msort/2 not available in Scryer Prolog yet: msort(Vertices, V1),
-    msort_(Vertices, V1),
+    % a vertex named twice must still be added once only
+    sort(Vertices, V1),
     add_vertices_to_s_graph(V1, Graph, NewGraph).
 
 add_vertices_to_s_graph(L, [], NL) :-
